@@ -5,7 +5,8 @@
 (* that C06, C07, C08 and C14 talk about, the same formulas TLC checks on  *)
 (* the protocol model TaskLane.tla:                                        *)
 (*   AtMostOnce, NoRejectedRun, StartedOnlyIfPushed          (C06)         *)
-(*   PostCancelReject, WaitOnlyWhenQuiet, NothingAfterWait   (C07)         *)
+(*   PostCancelReject, WaitOnlyWhenQuiet, NothingAfterWait,                *)
+(*   WaitCoversEveryGoroutine (all 2N loop exits precede Wait's return) (C07) *)
 (*   AtMostNRunning, NoTimeoutWhileIdle (long-timeout scenarios)  (C08)    *)
 (*   StatusBounds, LastPanicIsOne                            (C14)         *)
 (* and, at stably quiescent states (liveness judged where no step of the   *)
@@ -28,7 +29,10 @@ Next == UNCHANGED i
 
 S0 == [begun |-> {}, acc |-> {}, rej |-> {}, late |-> {}, started |-> {}, open |-> {},
        cb |-> FALSE, ce |-> FALSE, wb |-> FALSE, we |-> FALSE,
-       raised |-> {}, rec |-> FALSE, sflag |-> {}, inprog |-> {}, sawfull |-> {}]
+       raised |-> {}, rec |-> FALSE, sflag |-> {}, inprog |-> {}, sawfull |-> {}, exits |-> 0]
+
+\* the hook points at which a queue or worker goroutine leaves its loop (each goroutine passes exactly one of them, once)
+ExitPoints == {"q.exit.take", "q.exit.chk", "q.exit.offer", "w.exit.chk", "w.exit.listen"}
 
 Bad(k, rule) == <<k, rule>>
 
@@ -57,11 +61,13 @@ Fold(c, k, s) ==
     [] e.e = "task.end" -> Fold(c, k + 1, [s EXCEPT !.open = @ \ {e.t}])
     [] e.e = "task.panic" -> Fold(c, k + 1, [s EXCEPT !.open = @ \ {e.t}, !.raised = @ \cup {e.v}])
     [] e.e = "cancel.begin" -> Fold(c, k + 1, [s EXCEPT !.cb = TRUE, !.sawfull = @ \cup s.inprog])
-    [] e.e = "cancel.end" -> Fold(c, k + 1, [s EXCEPT !.ce = TRUE])
+    [] e.e \in {"cancel.end", "cancel.seen"} -> Fold(c, k + 1, [s EXCEPT !.ce = TRUE])    \* seen: an observer found ctx.Done() closed while cancel() was still running
     [] e.e = "wait.begin" -> Fold(c, k + 1, [s EXCEPT !.wb = TRUE])
     [] e.e = "wait.end" ->
          IF On({"C07"}) /\ (s.open # {}) THEN Bad(k, "C07: Wait returned while a started task had not returned")
+         ELSE IF On({"C07"}) /\ (s.exits < 2 * c.n) THEN Bad(k, "C07: Wait returned before every queue and worker goroutine of the lane had left its loop")
          ELSE Fold(c, k + 1, [s EXCEPT !.we = TRUE])
+    [] e.e \in ExitPoints -> Fold(c, k + 1, [s EXCEPT !.exits = @ + 1])
     [] e.e = "w.recovered" -> Fold(c, k + 1, [s EXCEPT !.rec = TRUE])
     [] e.e = "status.begin" -> Fold(c, k + 1, [s EXCEPT !.sflag = IF s.rec THEN @ \cup {e.p} ELSE @ \ {e.p}])
     [] e.e = "status.end" ->
